@@ -180,15 +180,16 @@ fn c20(args: &Args) -> i32 {
         ],
         unchecked: vec!["lock-free internals of dashmap/crossbeam are not explored at their own atomic granularity".into()],
     };
-    let batch = Batch { spec, tier: args.tier, seed: args.seed, runs: runs(args, 3_000, 150_000), workers: args.workers };
+    let batch = Batch { spec, tier: args.tier, seed: args.seed, runs: runs(args, 1_500, 150_000), workers: args.workers };
     drive(
         batch,
         &|seed, i| {
-            let fam = match i % 5 {
+            let fam = match i % 6 {
                 0 => eng_sched::Family::LpgCore,
                 1 | 2 => eng_sched::Family::Lpg,
                 3 => eng_sched::Family::Rdf,
-                _ => eng_sched::Family::Txm,
+                4 => eng_sched::Family::Txm,
+                _ => eng_sched::Family::Buffer,
             };
             eng_sched::run_one(seed, fam, "C20", n_sched)
         },
